@@ -53,7 +53,7 @@ def run_property(prop: str, tier: str, seed: int, only_keys: set[str] | None = N
         from .report import load_known
         known = {k['key'] for k in load_known() if k.get('status') == 'known'}
         base_viol = len({o.key for o in ctx.obligations if not o.ok and o.key not in known})
-        a = audit_run(prop, base_viol)
+        a = audit_run(prop, base_viol, sorted(ctx.prog.consulted))
         extra = dict(extra, **a)
         au = a.get('audit')
         if isinstance(au, dict):
